@@ -388,7 +388,8 @@ class Interp:
                     t = with_min(t, c)
                     if c == 1 and name:
                         t.env["__len1__"] = t.env[name]
-                    return t, f_
+                    # len != c with len >= c known: len >= c + 1
+                    return t, (with_min(f_, c + 1) if v.minlen >= c else f_)
                 if isinstance(op, ast.Lt):
                     if v.minlen >= c:
                         return None, with_min(f_, c)
